@@ -202,6 +202,17 @@ def prv_node(layout='32', name='k', **kw):
     return node_term(PRV, key, **kw), k
 
 
+def depth_overflow(cs, node):
+    """A refusal whose conditions imply that the parent's depth is 255 or more: the child's depth (256) has no one-byte
+    serialisation, so no extended key could be printed for it - refusing to derive it is not a refusal of a valid child."""
+    from ..evalr import bounds_of, Facts as _F
+    d = T.obj_fields(node).get('depth') if T.tag(node) == 'obj' else None
+    if d is None:
+        return False
+    lo, hi = bounds_of(d, _F(list(cs)))
+    return lo is not None and lo >= 255
+
+
 def pub_node(**kw):
     """Symbolic PubKeyNode whose key is the compressed SEC encoding of a symbolic point P."""
     P = S('P', type='point')
